@@ -5,6 +5,8 @@ import (
 	"fmt"
 	"math/rand"
 	"os"
+	"runtime"
+	"runtime/debug"
 	"strconv"
 	"strings"
 	"time"
@@ -38,6 +40,7 @@ type limitCase struct {
 	Events  [][]any `json:"events"`
 	Multi   bool    `json:"multi"`
 	Srcs    [][]int `json:"srcs"`
+	Alloc   int     `json:"alloc"` // bytes allocated during the call (multi-megabyte families only, else 0)
 	Text    string  `json:"-"`
 	ErrText string  `json:"-"`
 }
@@ -182,6 +185,30 @@ func bigInput(family string, size int) (grammar, text string, ntoks int) {
 		b.WriteString(strings.Repeat("#c\n", d))
 		b.WriteString("f:Int}")
 		return "schema", b.String(), d + 7
+	case "bom-flood-inside": // { a <U+FEFF ...> b c d e f }: ignored characters between two tokens within the limit
+		d := size / 3
+		b.WriteString("{ a ")
+		b.WriteString(strings.Repeat("\ufeff", d))
+		b.WriteString(" b c d e f g h i j k l }")
+		return "query", b.String(), 14
+	case "ignored-flood-inside":
+		d := size / 6
+		b.WriteString("{ a ")
+		b.WriteString(strings.Repeat(" ,\t\ufeff\n", d))
+		b.WriteString(" b c d e f g h i j k l }")
+		return "query", b.String(), 14
+	case "escaped-string-head": // strings with escapes among the first tokens, then a flood
+		d := size / 2
+		b.WriteString(`{ f(a: "x\ny", b: ["\u0041", "q\"q", "t\tt"], c: "\\") `)
+		b.WriteString(strings.Repeat("a ", d))
+		b.WriteString("}")
+		return "query", b.String(), d + 18
+	case "schema-escaped-description-head":
+		d := size / 6
+		b.WriteString(`"de\nsc" type T{ "fi\u0065ld" g(a: String = "x\ty"): Int `)
+		b.WriteString(strings.Repeat("f:Int ", d))
+		b.WriteString("}")
+		return "schema", b.String(), 3*d + 16
 	case "schema-field-flood":
 		d := size / 6
 		b.WriteString("type T{")
@@ -193,7 +220,8 @@ func bigInput(family string, size int) (grammar, text string, ntoks int) {
 }
 
 var bigFamilies = []string{"nest-list-value", "nest-type", "nest-selection", "nest-object-value", "token-flood", "comment-flood", "comment-flood-inside",
-	"schema-nest-type", "schema-nest-default", "schema-comment-flood", "schema-field-flood"}
+	"schema-nest-type", "schema-nest-default", "schema-comment-flood", "schema-field-flood",
+	"bom-flood-inside", "ignored-flood-inside", "escaped-string-head", "schema-escaped-description-head"}
 
 // worker: limitbig <family> <size> <limit> <entry>  -> prints one JSON limitCase (events included)
 func limitBigWorker(args []string) int {
@@ -206,6 +234,12 @@ func limitBigWorker(args []string) int {
 	lc.Grammar, lc.Entry, lc.Limit, lc.N, lc.OK0 = grammar, entry, limit, n, true
 	lc.Src = []int{}
 	var crash string
+	// recursion depth bounded by the limit: a goroutine stack beyond 16 MiB + 1 KiB per token of the limit ends
+	// the process (the deepest legitimate nesting under a limit L is L levels of a few hundred bytes each)
+	debug.SetMaxStack(16<<20 + 1024*limit)
+	var m0, m1 runtime.MemStats
+	runtime.GC()
+	runtime.ReadMemStats(&m0)
 	if entry == "ParseSchemasWithLimit(exact prefix)" {
 		// two sources in one call: the first has EXACTLY `limit` tokens (so it fits), the second is the big
 		// one. Every source has the limit to itself, so the second must fail after work bounded by the
@@ -245,6 +279,11 @@ func limitBigWorker(args []string) int {
 		lc.Events = captureEvents(func() {
 			lc.Tree, lc.OK, lc.ErrText, crash = parseLimited(grammar, entry, text, limit)
 		})
+	}
+	runtime.ReadMemStats(&m1)
+	lc.Alloc = int(m1.TotalAlloc - m0.TotalAlloc)
+	if lc.Alloc > 1<<30 {
+		lc.Alloc = 1 << 30 // the model's integers are 32 bits wide
 	}
 	if crash != "" {
 		fmt.Fprintln(os.Stderr, crash)
